@@ -83,7 +83,7 @@ fn set_text(fm: &mut FieldMap, tf: &TextField, text: &str, c: &Corpus, r: &mut R
             Kind::List { elem, .. } | Kind::Array(_, elem) => elem.clone(),
             _ => unreachable!(),
         };
-        let o = GenOpts { text: TextMode::Ascii, max_list: Some(1), boundary: 0 };
+        let o = GenOpts { text: TextMode::Ascii, max_list: Some(1), boundary: 0, hostile: false };
         let mut e = c.gen().fields(r, &c.spec.structs[&elem].fields, &o);
         corpus::set(&mut e, &tf.path[1], Val::T(text.to_string()));
         corpus::set(fm, &tf.path[0], Val::L(vec![e]));
@@ -273,7 +273,7 @@ pub fn run(ctx: &mut Ctx) -> (&'static str, String, bool) {
                 Kind::Text { n, .. } | Kind::ZText(n) | Kind::VText(n) | Kind::ZVText(n) => *n,
                 _ => 0,
             };
-            let o = GenOpts { text: TextMode::Ascii, max_list: Some(1), boundary: 0 };
+            let o = GenOpts { text: TextMode::Ascii, max_list: Some(1), boundary: 0, hostile: false };
             let base = c.gen().packet(&mut r, lay, &o);
             let raw = matches!(tf.spec, Kind::Text { raw: true, .. });
             for family in 0..5usize {
